@@ -26,12 +26,14 @@ Cases ==
       n \in {200, 202, 257, 500}, p \in {10, 35}}
   \cup {[kind |-> "block", C |-> 1, N |-> n, p |-> b, seed |-> 0] :
       n \in {202, 260, 1000}, b \in {3, 10, 25}}
+  \* many chains (up to 16), short and odd lengths
+  \cup {[kind |-> "markov", C |-> c, N |-> n, p |-> 30, seed |-> 23] : c \in {5, 8, 16}, n \in {9, 21, 64}}
   \* very strongly autocorrelated chains at half lengths whose FFT padding 2n-1 is just above a power of two
   \* (129..181, 257..362): the Geyer sum reaches the lags a too-short padding would wrap around
   \cup {[kind |-> "markov", C |-> c, N |-> n, p |-> p, seed |-> sd] :
       c \in {1}, n \in {362, 724}, p \in {1, 2}, sd \in {3, 19}}
   \cup {[kind |-> "block", C |-> 1, N |-> n, p |-> b, seed |-> 0] : n \in {362, 724}, b \in {60, 90}}
-QuickCases == {c \in Cases : (c.N <= 260 /\ c.p \in {5, 10, 35, 50}) \/ (c.N = 362 /\ c.seed \in {0, 3})}
+QuickCases == {c \in Cases : (c.N <= 260 /\ c.p \in {5, 10, 35, 50}) \/ (c.N = 362 /\ c.seed \in {0, 3}) \/ (c.seed = 23 /\ c.N \in {9, 64})}
 
 ArrOf(c) ==
   IF c.kind = "markov"
